@@ -94,6 +94,9 @@ def slic(array, spacer=16, m=1.0, max_iters=128):
         raise ValueError('mahotas.segmentation.slic: `spacer` must be a positive integer (got {0})'.format(spacer))
     if min(array.shape[:2]) <= spacer//2:
         raise ValueError('mahotas.segmentation.slic: array of shape {0} is too small for `spacer` = {1} (no seed would be placed)'.format(array.shape, spacer))
+    max_iters = int(max_iters)
+    if max_iters < 1:
+        raise ValueError('mahotas.segmentation.slic: `max_iters` must be at least 1 (got {0})'.format(max_iters))
     labels = np.zeros((array.shape[0], array.shape[1]), dtype=np.intc)
     labels = labels.copy()
     n = _labeled.slic(array, labels, int(spacer), float(m), int(max_iters))
